@@ -696,7 +696,7 @@ impl Part for DictPart {
         "dict"
     }
     fn cases(&self, tier: Tier) -> u32 {
-        tier.pick(6_000, 100_000)
+        tier.pick(15_000, 100_000)
     }
     fn strategy(&self, tier: Tier) -> BoxedStrategy<DCase> {
         let all: Vec<usize> = (0..POOL.len()).collect();
@@ -1259,7 +1259,7 @@ impl Part for UnionPart {
         "union"
     }
     fn cases(&self, tier: Tier) -> u32 {
-        tier.pick(12_000, 300_000)
+        tier.pick(30_000, 300_000)
     }
     fn strategy(&self, tier: Tier) -> BoxedStrategy<UCase> {
         let maxlen = tier.pick(16usize, 40usize);
@@ -1327,7 +1327,7 @@ impl Part for Boundary {
         "id-boundary"
     }
     fn cases(&self, tier: Tier) -> u32 {
-        tier.pick(400, 4_000)
+        tier.pick(1_000, 8_000)
     }
     fn strategy(&self, _tier: Tier) -> BoxedStrategy<BoundaryCase> {
         (0u8..6, 0u8..4, 0u8..6, 1u8..8, any::<bool>()).prop_map(|(warm_terms, warm_quoted, below, fresh, via_star)| BoundaryCase { warm_terms, warm_quoted, below, fresh, via_star }).boxed()
